@@ -25,6 +25,7 @@ Singles ==
     V("h", I64(0 - 19)), V("h", <<32767, 65535, 65535, 65535>>), V("h", <<32768, 0, 0, 0>>), V("h", <<15, 65535, 65535, 65535>>),
     V("c", I32(97)), V("c", I32(39)), V("c", I32(10)), V("c", I32(92)), V("c", I32(0)), V("c", I32(1)),
     V("f", F(1)), V("f", F(2)), V("f", F(3)), V("f", F(4)), V("f", F(5)), V("d", D(1)), V("d", D(2)), V("d", D(3)), V("d", D(4)), V("d", D(5)),
+    V("s", <<46, 46, 46, 32, 51, 32>>),                  \* "... 3 ": three dots inside a value are not the ellipsis of a range
     V("s", <<>>), V("s", <<97>>), V("s", <<97, 34, 98, 10, 37, 92>>), V("s", [i \in 1..30 |-> 96 + (i % 26) + 1]),
     V("S", <<97, 98, 95, 49>>), V("S", <<116, 114, 117, 101>>), V("S", <<110, 111, 32, 105, 100>>), V("S", <<>>),
     V("b", <<>>), V("b", <<0, 255, 16>>), V("b", [i \in 1..24 |-> i * 9]), V("m", <<144, 60, 127, 0>>), V("r", <<35757, 61453>>),
